@@ -178,6 +178,7 @@ fn op() -> impl Strategy<Value = Op> {
         1 => any::<u8>().prop_map(Op::CloneRevIter),
         1 => any::<u8>().prop_map(Op::IntoOwnedRevIter),
         1 => any::<u8>().prop_map(Op::CheckNeedle),
+        5 => (any::<u8>(), any::<u8>(), any::<u8>()).prop_map(|(f, h, m)| Op::Buf(f, h, m)),
     ]
 }
 
@@ -228,7 +229,7 @@ fn hist_viol(ctx: &Ctx, h: &History, what: &str) -> Value {
 
 pub fn c16(ctx: &Ctx) -> Frag {
     let mut frag = ctx.frag("history-proptest");
-    frag.require(&[">= 3 searches over different haystacks on one finder", "clone / into_owned taken from a partially consumed iterator", "owned finder or iterator used after the needle buffer was freed"]);
+    frag.require(&[">= 3 searches over different haystacks on one finder", "clone / into_owned taken from a partially consumed iterator", "owned finder or iterator used after the needle buffer was freed", ">= 2 searches of one reused buffer with different contents"]);
     let cases = ctx.n(60_000, 1_000_000);
     let cases = if mvcore::cfgs::cfg_emu() { cases / 4 } else { cases } as u32;
     struct St {
@@ -259,6 +260,10 @@ pub fn c16(ctx: &Ctx) -> Frag {
             if hs.owned_after_drop > 0 && h.before.iter().any(|o| matches!(o, Op::IntoOwned(_) | Op::StartIter(..) | Op::IntoOwnedIter(_))) {
                 s.frag.class("owned finder or iterator used after the needle buffer was freed");
             }
+            if hs.buf_searches >= 2 {
+                s.frag.class(">= 2 searches of one reused buffer with different contents");
+                nt = true;
+            }
             if nt {
                 s.frag.nontrivial_hashes.insert(oracle::fnv(&[hist_json(&h).to_string().as_bytes()]));
                 if s.frag.want_sample() && h.needle.len() < 20 && h.before.len() < 12 && h.before.len() > 3 {
@@ -268,6 +273,7 @@ pub fn c16(ctx: &Ctx) -> Frag {
                 }
             }
             s.stats.searches += hs.searches;
+            s.stats.buf_searches += hs.buf_searches;
             s.stats.steps += hs.steps;
             s.stats.clones_of_partial += hs.clones_of_partial;
             s.stats.owned_after_drop += hs.owned_after_drop;
@@ -292,6 +298,7 @@ pub fn c16(ctx: &Ctx) -> Frag {
         }
     }
     s.frag.extra.insert("searches".into(), json!(s.stats.searches));
+    s.frag.extra.insert("searches_of_reused_buffer".into(), json!(s.stats.buf_searches));
     s.frag.extra.insert("iterator_steps".into(), json!(s.stats.steps));
     s.frag.extra.insert("clones_of_partially_consumed".into(), json!(s.stats.clones_of_partial));
     s.frag.extra.insert("ops_after_needle_freed".into(), json!(s.stats.owned_after_drop));
